@@ -22,9 +22,30 @@ class Crashed:
         return f"Crashed({self.why})"
 
 
+class WorkerError:
+    """A Python exception raised by the mapped function (a harness bug, not a crash)."""
+    def __init__(self, item, tb):
+        self.item, self.tb = item, tb
+
+
 def _run_chunk(args):
+    import traceback
     func, chunk = args
-    return [func(i) for i in chunk]
+    out = []
+    for i in chunk:
+        try:
+            out.append(func(i))
+        except Exception:  # noqa: BLE001
+            out.append(WorkerError(repr(i)[:300], traceback.format_exc()[-1500:]))
+    return out
+
+
+def _raise_worker_errors(results):
+    errs = [r for r in results if isinstance(r, WorkerError)]
+    if errs:
+        from .common import Infra
+        raise Infra(f"{len(errs)} worker exception(s) in the harness; first on item {errs[0].item}:\n{errs[0].tb}")
+    return results
 
 
 def _kill(ex):
@@ -45,7 +66,7 @@ def pmap(func, items, workers: int | None = None, chunk: int = 64, task_timeout:
     workers = workers or min(14, max(1, (os.cpu_count() or 2) - 2))
     if (len(items) < 50 and chunk >= 16) or workers == 1:
         _init()
-        return [func(i) for i in items]
+        return _raise_worker_errors(_run_chunk((func, items)))
     ctx = mp.get_context("spawn")
     chunks = [items[i:i + chunk] for i in range(0, len(items), chunk)]
     results: list = [None] * len(chunks)
@@ -67,7 +88,7 @@ def pmap(func, items, workers: int | None = None, chunk: int = 64, task_timeout:
         sub = _pmap_isolated(func, singles, workers, ctx, task_timeout)
         for k in broken:
             results[k] = [r for r, o in zip(sub, owner) if o == k]
-    return [r for ch in results for r in ch]
+    return _raise_worker_errors([r for ch in results for r in ch])
 
 
 def _pmap_isolated(func, singles, workers, ctx, task_timeout):
